@@ -378,15 +378,15 @@ pub fn check(tier: Tier) -> Check {
             "a response with the right transaction id from a different source counts as an answer (the statement binds answers to transaction ids, not to sources)",
         ],
         deciding: vec!["C03"],
-        streams: vec![Stream::new("hostile", tier.pick(600, 12_000), scenario)],
+        streams: vec![Stream::new("hostile", tier.pick(3_000, 12_000), scenario)],
         require: vec![
-            ("searches", tier.pick(500, 15_000)),
-            ("concurrent_searches", tier.pick(400, 12_000)),
-            ("forgeries_injected", tier.pick(5_000, 150_000)),
-            ("stream_items_checked", tier.pick(500, 15_000)),
-            ("late_or_replayed_responses_ignored", tier.pick(200, 6_000)),
-            ("announces_checked", tier.pick(200, 6_000)),
-            ("forged_values_legitimately_yielded_right_tid", tier.pick(20, 600)),
+            ("searches", tier.pick(2_500, 15_000)),
+            ("concurrent_searches", tier.pick(2_000, 12_000)),
+            ("forgeries_injected", tier.pick(25_000, 150_000)),
+            ("stream_items_checked", tier.pick(2_500, 15_000)),
+            ("late_or_replayed_responses_ignored", tier.pick(1_000, 6_000)),
+            ("announces_checked", tier.pick(1_000, 6_000)),
+            ("forged_values_legitimately_yielded_right_tid", tier.pick(100, 600)),
         ],
         exhaustive: false,
     }
